@@ -651,6 +651,8 @@ def gen_c09(rng, idx, tier, faults):
         pattern = "fn"
     else:
         kind = rng.choice(ALL_CLASSES)
+        if faults and rng.random() < 0.08:
+            kind = "sample.VoronoiFPS"  # the only consumer of the wall clock
         r2 = rng.random()
         if faults:
             pattern = "refit" if r2 < 0.35 else "repeat" if r2 < 0.6 else "fault" if r2 < 0.85 else "single"
